@@ -178,9 +178,18 @@ func (e *Exec) addPC(c *Term) {
 		return
 	}
 	e.pcs = append(e.pcs, c)
-	// remember equalities with constants for later folding
-	if c.op == OpEq && c.a[1].op == OpConst && c.a[0].w > 0 {
+	e.learn(c)
+}
+
+// learn remembers equalities with constants (also inside conjunctions) so
+// that later branches on the same term fold without the solver.
+func (e *Exec) learn(c *Term) {
+	switch {
+	case c.op == OpEq && c.a[1].op == OpConst && c.a[0].w > 0:
 		e.conc[c.a[0].id] = c.a[1].val
+	case c.op == OpBAnd:
+		e.learn(c.a[0])
+		e.learn(c.a[1])
 	}
 }
 
